@@ -667,7 +667,15 @@ func (cs *Contracts) parseFile(path, pkg string, external bool) error {
 			if !ok || len(strings.Fields(head)) == 0 || len(strings.Fields(tail)) == 0 {
 				return fail("callers <callee> ... : <func> ...")
 			}
-			cs.Callers = append(cs.Callers, &CallersRule{Callees: strings.Fields(head), Allowed: strings.Fields(tail), Tags: tags, File: path, Line: rc.line})
+			cr := &CallersRule{Callees: strings.Fields(head), Allowed: strings.Fields(tail), Tags: tags, File: path, Line: rc.line}
+			if cr.Callees[0] == "maybe-absent" {
+				// "callers maybe-absent f g : funcs": a rule about functions the repository need not call at all
+				cr.AbsentOK, cr.Callees = true, cr.Callees[1:]
+				if len(cr.Callees) == 0 {
+					return fail("callers maybe-absent <callee> ... : <func> ...")
+				}
+			}
+			cs.Callers = append(cs.Callers, cr)
 		case "state_fields":
 			// state_fields T: f1 f2 ... [except func ...]
 			head, tail, ok := strings.Cut(rest, ":")
